@@ -19,6 +19,12 @@ var exceptionTable = map[string]string{
 	"R3.3|(*datastore.pusher).readRepo:repoT.id": "RPC-only admin command (push / flatten / limit-versions) working on a duplicated or received repo object that is registered afterwards or written to a separate store; RPC histories are outside the HTTP API histories C03 quantifies over",
 	"R3.3|(*datastore.pusher).readRepo:Data.rootUUID": "RPC-only admin command (push / flatten / limit-versions) working on a duplicated or received repo object that is registered afterwards or written to a separate store; RPC histories are outside the HTTP API histories C03 quantifies over",
 	"R3.3|(*datastore.repoT).remapLocalIDs:Data.id": "RPC-only admin command (push / flatten / limit-versions) working on a duplicated or received repo object that is registered afterwards or written to a separate store; RPC histories are outside the HTTP API histories C03 quantifies over",
+	// R20.3 — process-terminating calls on impossible paths
+	"R20.3|site:(*datatype/imageblk.Data).putChunk": "log.Fatalf on an impossible dynamic type of chunk.Op: the op is always created by the same package immediately before the chunk handler is registered (same-package invariant, not input dependent)",
+	"R20.3|site:(*datatype/imageblk.Data).readChunk": "log.Fatalf on an impossible dynamic type of chunk.Op: the op is always created by the same package immediately before the chunk handler is registered (same-package invariant, not input dependent)",
+	"R20.3|site:(*datatype/labelmap.Data).readChunk": "log.Fatalf on an impossible dynamic type of chunk.Op: the op is always created by the same package immediately before the chunk handler is registered (same-package invariant, not input dependent)",
+	"R20.3|site:(*datatype/labelblk.Data).readChunk": "log.Fatalf on an impossible dynamic type of chunk.Op: the op is always created by the same package immediately before the chunk handler is registered (same-package invariant, not input dependent)",
+	"R20.3|site:(*datatype/labelarray.Data).readChunk": "log.Fatalf on an impossible dynamic type of chunk.Op: the op is always created by the same package immediately before the chunk handler is registered (same-package invariant, not input dependent)",
 	// R12.2 — stores into the label counters that are not allocations:
 	"R12.2|(*datatype/labelmap.Data).CopyPropertiesFrom:MaxRepoLabel": "copy constructor: fills a destination instance that is not yet published; the copy operation saves the instance afterwards (out of the quantifier: no allocation is served from it meanwhile)",
 	"R12.2|(*datatype/labelmap.Data).CopyPropertiesFrom:NextLabel":    "copy constructor, see MaxRepoLabel",
